@@ -16,7 +16,7 @@ open Driver
 
 structure St where
   base : Driver.Base.St := {}
-  meta : Driver.Meta.St := {}
+  metaS : Driver.Meta.St := {}
   ds : Driver.DS.St := {}
   layout : Driver.Layout.St := {}
   misc : Driver.Misc.St := {}
@@ -26,7 +26,7 @@ def step (st : St) (line : String) : St × Option String :=
   match tokens line with
   | [] => (st, none)
   | "cfg" :: rest =>
-    let st := { st with meta := Driver.Meta.cfg st.meta rest, ds := Driver.DS.cfg st.ds rest,
+    let st := { st with metaS := Driver.Meta.cfg st.metaS rest, ds := Driver.DS.cfg st.ds rest,
                         layout := Driver.Layout.cfg st.layout rest, misc := Driver.Misc.cfg st.misc rest,
                         conc := Driver.Conc.cfg st.conc rest }
     match Driver.Base.step st.base ("cfg" :: rest) with
@@ -36,8 +36,8 @@ def step (st : St) (line : String) : St × Option String :=
     match Driver.Base.step st.base toks with
     | some (s, o) => ({ st with base := s }, some o)
     | none =>
-    match Driver.Meta.step st.meta toks with
-    | some (s, o) => ({ st with meta := s }, some o)
+    match Driver.Meta.step st.metaS toks with
+    | some (s, o) => ({ st with metaS := s }, some o)
     | none =>
     match Driver.DS.step st.ds toks with
     | some (s, o) => ({ st with ds := s }, some o)
